@@ -12,13 +12,14 @@ RULE = (
     "tiers) against explicit sets. X = Hypothesis-generated ranges, one-character literals, ASCII "
     "case-insensitive one-character literals and mixed choices of them (what squash_choice merges; "
     "boundaries at case edges, adjacent / overlapping / nested / single-point / astral ranges, members ] - ^ \\ [; "
-    "plus a deterministic matrix of 19 regex-special characters x 9 roles inside a merged class): "
+    "plus a deterministic matrix of 19 regex-special characters x 9 roles inside a merged class, and every "
+    "explicit built-in merged with literals, a range, ASCII_DIGIT and NEWLINE): "
     "boundary-focused sweeps (U+0000-U+02FF, +-2 around every boundary, case images, specials, stride) in "
     "quick, full sweeps in thorough, against the union of the explicit sets. Unicode property built-ins "
     "(alone and mixed into choices): cross-mode equality with the unoptimized interpreter. Case-insensitive "
     "literals of length 1-2 over ASCII letters x all ASCII inputs of that length. Escapes \\n \\r \\t \\\\ \\\" "
     "\\' \\0, \\xHH for all 256 values, \\u{H..} with 2-6 digits, both hex cases, in string, case-insensitive string, "
-    "PUSH_LITERAL and both range positions, and after an escaped backslash (where they are no escapes), for sampled (quick) / all (thorough) scalar values. A sweep (X, mode) is non-trivial "
+    "PUSH_LITERAL and both range positions, followed by further characters, and after an escaped backslash (where they are no escapes), for sampled (quick) / all (thorough) scalar values. A sweep (X, mode) is non-trivial "
     "when its oracle set is neither empty nor everything; distinct by (X, mode, chunk)."
 )
 ASSUMPTIONS = [
@@ -445,6 +446,18 @@ def run_shard(ctx: Ctx, spec):
                 ("alt", (("ci", "k"), ("str", c))),
                 ("alt", (("str", c), ("str", c), ("str", "z"))),
             ]
+        # B3. every explicit built-in merged with literals, ranges and another built-in (what WHITESPACE = _{ " " |
+        # "\\t" | NEWLINE } turns into): the merged class must still be the union of its members
+        for b in EXPLICIT:
+            if b[1] == "ANY":
+                continue
+            matrix += [
+                ("alt", (("str", " "), ("str", "\t"), b)),
+                ("alt", (b, ("str", "x"))),
+                ("alt", (("range", "a", "c"), b, ("str", "!"))),
+                ("alt", (b, ("id", "ASCII_DIGIT"))),
+                ("alt", (("id", "NEWLINE"), b)),
+            ]
         for j, x in enumerate(matrix):
             if j % 16 != idx:
                 continue
@@ -529,6 +542,13 @@ def check_escapes(ctx, modes, cases, batch=400):
             lines.append(f'p{i} = {{ PUSH_LITERAL("{esc}") ~ PEEK }}')
             calls.append((f"p{i}", ch))
             wants.append((esc, ch, "push-literal"))
+            # followed by further characters of the same literal (an escape must not swallow what follows it)
+            lines.append(f'f{i} = {{ "{esc}z" }}')
+            calls.append((f"f{i}", ch + "z"))
+            wants.append((esc, ch, "string-followed-by-a-character"))
+            lines.append(f'g{i} = {{ ^"{esc}{esc}9" }}')
+            calls.append((f"g{i}", ch + ch + "9"))
+            wants.append((esc, ch, "ci-string-escape-twice"))
             if esc not in ('\\"', "\\\\"):
                 raw = "\\" + esc[1:]
                 lines.append(f'd{i} = {{ "\\{esc}" }}')
